@@ -442,6 +442,27 @@ fn run_c16(thorough: bool, threads: usize, ctx: &Ctx) -> serde_json::Value {
             }
         }
     });
+    // ---- (a') the component limit counts ENABLED components: more components written than any storage holds, enough of
+    //          them disabled; the undecorated twin has only the enabled ones ----
+    let mut wide_count = 0u64;
+    for (written, stride, phase) in [(17usize, 17usize, 0usize), (18, 9, 1), (33, 33, 5), (34, 17, 3), (40, 5, 2), (64, 2, 1)] {
+        // component j is disabled iff j % stride == phase (and, for the denser patterns, every such j)
+        for pred in ["p0", "p1"] {
+            let comps: Vec<RComp> = (0..written).map(|j| RComp { name: format!("K{}", j), id: None, cfg: if j % stride == phase { Some(pred.to_string()) } else { None } }).collect();
+            let archs = vec![RArch { name: "Wide".into(), id: None, cfg: None, comps }, RArch { name: "A1".into(), id: None, cfg: None, comps: vec![RComp { name: "K0".into(), id: None, cfg: None }] }];
+            for tv in 0..2u32 {
+                let truth = |p: &str| if p == pred { tv == 1 } else { true };
+                let twin = twin_of(&archs, &truth);
+                wide_count += 1;
+                check_world_ids(ctx, &archs, &truth, "C16", false);
+                let real = world_data(&decl_text("Wx", &archs), &truth).map(|x| data_to_ids(&x.0));
+                let tw = world_data(&decl_text("Wx", &twin), &always).map(|x| data_to_ids(&x.0));
+                if real != tw {
+                    ctx.report("C16", "decorated-differs-from-twin", format!("archetype with {} components written, predicate {} = {}: decorated gives {:?}, undecorated twin gives {:?}", written, pred, tv == 1, real.as_ref().map(|_| "ids").map_err(|e| e.clone()), tw.as_ref().map(|_| "ids").map_err(|e| e.clone())), decl_text("Wx", &archs));
+                }
+            }
+        }
+    }
     // ---- (b) query parameters ----
     let base = vec![
         RArch { name: "A0".into(), id: None, cfg: None, comps: vec![RComp { name: "Ca".into(), id: None, cfg: None }, RComp { name: "Cb".into(), id: None, cfg: None }] },
@@ -451,9 +472,16 @@ fn run_c16(thorough: bool, threads: usize, ctx: &Ctx) -> serde_json::Value {
     let (d, _) = world_data(&decl, &always).expect("base world");
     let ids = data_to_ids(&d);
     let b64 = d.to_base64();
-    let tys = vec![
+    // every parameter kind: the four that restrict matching (component, OneOf, Entity<A>, EntityDirect<A>) and the four that do not
+    let tys_all = vec![
         (PType::Comp("Ca".into()), false), (PType::Comp("Cb".into()), true), (PType::Comp("Cc".into()), false), (PType::Entity("A0".into()), false),
         (PType::EntityAny, false), (PType::DirectWild, false), (PType::OneOf(vec!["Cb".into(), "Cc".into()]), false), (PType::Entity("A1".into()), false),
+        (PType::Direct("A0".into()), false), (PType::Direct("A1".into()), false), (PType::EntityWild, false), (PType::DirectAny, false),
+    ];
+    // three-parameter lists: eight kinds (both named-archetype kinds, on different archetypes)
+    let tys_3 = vec![
+        (PType::Comp("Ca".into()), false), (PType::Comp("Cb".into()), true), (PType::Comp("Cc".into()), false), (PType::Entity("A0".into()), false),
+        (PType::EntityAny, false), (PType::DirectWild, false), (PType::OneOf(vec!["Cb".into(), "Cc".into()]), false), (PType::Direct("A1".into()), false),
     ];
     let mut plists: Vec<Vec<Param>> = Vec::new();
     let lens: Vec<usize> = if thorough { vec![1, 2, 3] } else { vec![1, 2] };
@@ -461,6 +489,7 @@ fn run_c16(thorough: bool, threads: usize, ctx: &Ctx) -> serde_json::Value {
         let mut cur: Vec<Vec<Param>> = vec![vec![]];
         // three-parameter lists use three predicates (the fourth multiplies the space by 5 for no new relation)
         let np = if len >= 3 { 3 } else { npreds };
+        let tys = if len >= 3 { tys_3.clone() } else { tys_all.clone() };
         for _ in 0..len {
             cur = cur.into_iter().flat_map(|p| {
                 let tys = tys.clone();
@@ -501,7 +530,7 @@ fn run_c16(thorough: bool, threads: usize, ctx: &Ctx) -> serde_json::Value {
     });
     ctx.sample(serde_json::json!({"declaration": "#[cfg(any(fa))] ecs_archetype!(A0, Ca, #[cfg(any(fa, fb))] Cb); #[archetype_id(0)] ecs_archetype!(A1, #[cfg(any(fa, fb))] Cb, Cc);", "truth": {"any(fa)": false, "any(fa, fb)": true}, "twin": "#[archetype_id(0)] ecs_archetype!(A1, Cb, Cc);"}));
     ctx.sample(serde_json::json!({"query": "ecs_iter!(world, |#[cfg(any(fa))] p0: &Ca, p1: &mut Cb, #[cfg(any(fa, fb))] p2: &Entity<A1>| ..)", "truth": {"any(fa)": true, "any(fa, fb)": false}, "twin": "|p0: &Ca, p1: &mut Cb|"}));
-    serde_json::json!({"decoration_sites": 6, "predicates": npreds, "predicate_texts": refm::PRED_TEXT.iter().take(npreds).map(|x| x.1).collect::<Vec<_>>(), "predicate_truth": "independent per predicate (supplied by the driver in place of rustc): the texts are chosen to be token-prefixes of one another", "attributes_per_site": "0..1 (0..2, both orders, on two declaration sites and on every query parameter)", "declaration_variants": variants.len(), "decorated_declarations_x_truth": decl_count.load(Ordering::Relaxed), "decorated_queries_x_truth_x_macro": query_count.load(Ordering::Relaxed), "parameter_lists": plists.len()})
+    serde_json::json!({"decoration_sites": 6, "predicates": npreds, "predicate_texts": refm::PRED_TEXT.iter().take(npreds).map(|x| x.1).collect::<Vec<_>>(), "predicate_truth": "independent per predicate (supplied by the driver in place of rustc): the texts are chosen to be token-prefixes of one another", "attributes_per_site": "0..1 (0..2, both orders, on two declaration sites and on every query parameter)", "declaration_variants": variants.len(), "wide_declarations_x_truth": wide_count, "decorated_declarations_x_truth": decl_count.load(Ordering::Relaxed), "decorated_queries_x_truth_x_macro": query_count.load(Ordering::Relaxed), "parameter_lists": plists.len()})
 }
 
 fn arg(args: &[String], name: &str) -> Option<String> {
